@@ -277,7 +277,10 @@ def _weave_states_in_region(
                                 del state[acc_name]
                 # any other op that contains ops:
                 elif op.regions:
-                    _weave_states_in_region(op, dict(), rewriter)
+                    # nothing is known about how control moves between the regions (the cases of a switch exclude
+                    # each other): every region starts without any known state
+                    for region in op.regions:
+                        _weave_states_in_region(region, dict(), rewriter)
                     # what happens inside is not carried out of the op: behind it, nothing is known about
                     # the accelerators it sets up, and about none if it may change the state in another way
                     if has_accfg_effects(op):
